@@ -656,6 +656,14 @@ def spectral_experiments(spec):
         fails.append(Failure('TimeSeries/sampling_rate/value', 'sampling_rate %r Hz for interval %d ps (unit %s)' % (rate, a_in['dt'], a_in['unit']),
                              {'meta': {'op': 'spectral', 'spec': spec}}))
     S = A.SpectralAnalyzer(T)
+    # the same analyzer class, first built on ANOTHER series (4x the interval, another unit, other data) and then
+    # re-targeted with set_input: its results must be the direct algorithm call on the NEW series with the NEW rate
+    # (a getter that takes Fs from a parameter dict filled at construction reports the old rate here)
+    iv0 = nt().TimeArray(np.int64(a_in['dt']) * 4, time_unit='ps')
+    iv0.convert_unit('us' if a_in['unit'] != 'us' else 'ms')
+    T0 = nt().TimeSeries(d[..., ::-1] * 0.5 + 1.0, sampling_interval=iv0, time_unit=iv0.time_unit)
+    S2 = A.SpectralAnalyzer(T0)
+    S2.set_input(T)
     # reference: the same data on the same picosecond interval, expressed in seconds and starting at 0 (the
     # configuration the repo's own tests cover) — used where the expected grid is the analyzer's own definition
     # (frequency-grid conventions are C05's clauses; here only the unit-independence of Fs is judged)
@@ -684,6 +692,29 @@ def spectral_experiments(spec):
         rows = [tsa.multi_taper_psd(x, Fs=Fs, BW=None, adaptive=False, low_bias=False) for x in np.atleast_2d(d)]
         chk('SpectralAnalyzer', 'spectrum_multi_taper', (f, p), (rows[0][0], np.array([r[1] for r in rows]).reshape(np.asarray(p).shape)), 'value')
     attempt('SpectralAnalyzer', 'spectrum_multi_taper', mt)
+
+    def retargeted():
+        f, p = S2.psd
+        rows = [tsa.mlab.psd(x, NFFT=64, Fs=Fs, detrend=tsa.mlab.detrend_none, window=tsa.mlab.window_hanning, noverlap=32) for x in np.atleast_2d(d)]
+        chk('SpectralAnalyzer', 'psd/after-set_input', (f, p), (rows[0][1], np.array([r[0].squeeze() for r in rows]).squeeze()), 'value')
+        chk('SpectralAnalyzer', 'periodogram/after-set_input', S2.periodogram, tsa.periodogram(d, Fs=Fs), 'value')
+        chk('SpectralAnalyzer', 'cpsd/after-set_input', S2.cpsd, tsa.get_spectra(d, method={'this_method': 'welch', 'Fs': Fs}), 'value')
+        f2, p2 = S2.spectrum_multi_taper
+        rows = [tsa.multi_taper_psd(x, Fs=Fs, BW=None, adaptive=False, low_bias=False) for x in np.atleast_2d(d)]
+        chk('SpectralAnalyzer', 'spectrum_multi_taper/after-set_input', (f2, p2), (rows[0][0], np.array([r[1] for r in rows]).reshape(np.asarray(p2).shape)), 'value')
+    attempt('SpectralAnalyzer', 'after-set_input', retargeted)
+
+    def shared_method():
+        # two analyzers sharing one user-supplied method dict without 'Fs': what the first one writes into the dict
+        # must not leak into the second one's results
+        m = {'this_method': 'welch', 'NFFT': 64}
+        Sa = A.SpectralAnalyzer(T0, method=m)
+        Sa.cpsd
+        Sb = A.SpectralAnalyzer(T, method=m)
+        f, p = Sb.psd
+        rows = [tsa.mlab.psd(x, NFFT=64, Fs=Fs, detrend=tsa.mlab.detrend_none, window=tsa.mlab.window_hanning, noverlap=32) for x in np.atleast_2d(d)]
+        chk('SpectralAnalyzer', 'psd/shared-method-dict', (f, p), (rows[0][1], np.array([r[0].squeeze() for r in rows]).squeeze()), 'value')
+    attempt('SpectralAnalyzer', 'shared-method-dict', shared_method)
     if d.ndim == 2:
         Cn = A.CoherenceAnalyzer(T, method={'this_method': 'welch', 'NFFT': 32, 'n_overlap': 16})
 
